@@ -19,14 +19,14 @@ ASSUMPTIONS = ["frames with more than 4 cells: cell values pairwise different (p
                "frames with more than 4 cells: no cell value truncates to a numeric dimension item (confusion paths are explored on the small frames)"]
 OUTSIDE = ["CSV / Excel text round trips (compiled formatting and parsing concretise)", "more than 4 dimensions", "row/column permutations beyond reverse and rotation for frames with more than 4 rows",
            "items-only layouts whose value column precedes an unnamed dimension column (flodym stops scanning at the first non-dimension column: listed as known finding)"]
-VARIANTS = 'headerless frames (a data row as column names); permuted rows keeping or repeating integer row labels; nested item sets; an array of 182 x 182 entries; a NaN entry in exports'
+VARIANTS = 'headerless frames (a data row as column names); permuted rows keeping or repeating integer row labels; nested item sets; an array of 182 x 182 entries; a NaN entry in exports; infinite entries in name- and letter-headed round trips (float64 run)'
 BOUNDS = {"quick": dict(dimsets=sorted(k for k in DIMSETS if k not in ("T3_r2_p2_e2", "r3_p2_e2")), layouts="index x dim_to_columns (name/letter) x header (names/letters/mixed/items) x value column name x single-item dims dropped x row reverse/rotate x column reverse",
                         sparse="arrays <= 4 cells"),
           "thorough": dict(dimsets=sorted(DIMSETS), layouts="as quick, all letter spellings of dim_to_columns, all row permutations for <= 4 rows", sparse="arrays <= 6 cells")}
 for _t in BOUNDS.values():
     _t["variants_beyond_the_base_enumeration"] = VARIANTS
 # exports of arrays holding a NaN entry are always run on float64 too (pandas treats float NaN specially, not symbolic NaN flags)
-SHADOW_ALWAYS = lambda cfg: bool(cfg.get("nan_entry"))
+SHADOW_ALWAYS = lambda cfg: bool(cfg.get("nan_entry") or cfg.get("inf_entries"))
 OPTS = {"quick": dict(shadow_every=25, max_paths=400, max_depth=600), "thorough": dict(shadow_every=100, max_paths=2000, max_depth=1500)}
 
 
@@ -38,6 +38,9 @@ def configs(tier, seed):
         for li, L in enumerate(layouts(name, tier)):
             fo = bool(li % 2) and len(DIMSETS[name]) >= 2  # every other layout on a column-major values array
             out.append(dict(h="roundtrip", op=name, key=f"roundtrip/{name}/{layout_key(L)}" + ("/F" if fo else ""), ds=name, L=L, fortran=fo))
+            if L["header"] in ("names", "letters") and L["rowperm"] == "id" and L["colperm"] == "id" and not L["drop_single"]:
+                # the first entry +inf, the last -inf (float64 run of the same harness only: the exact-real model has no infinities)
+                out.append(dict(h="roundtrip", op=name + "inf", key=f"roundtrip/{name}/{layout_key(L)}/infinite_values", ds=name, L=L, fortran=False, inf_entries=True))
         for index in (True, False):
             nd = len(DIMSETS[name])
             for d2c in [None] + list(range(nd)):
@@ -123,7 +126,7 @@ def ctx_setup(cfg, c):
     c.cands = tuple(numeric_items(cfg["ds"]))
 
 
-def _arr(w, name, no_confusion=False, fortran=False, nan_entry=False):
+def _arr(w, name, no_confusion=False, fortran=False, nan_entry=False, inf_entries=False):
     from flodym import FlodymArray
 
     dims = build_dims(name)
@@ -136,6 +139,9 @@ def _arr(w, name, no_confusion=False, fortran=False, nan_entry=False):
         for k in numeric_items(name):
             for v in X.flat:
                 w.assume(w.or_(w.lt(v, k), w.ge(v, k + 1)) if k >= 0 else w.or_(w.le(v, k - 1), w.gt(v, k)))
+    if inf_entries and not w.sym and X.size >= 2:
+        X = X.copy()
+        X.flat[0], X.flat[X.size - 1] = np.inf, -np.inf
     if nan_entry and X.size:
         last = tuple(k - 1 for k in X.shape)
         X[last] = w.with_nan(X[last], w.boolean("last_entry_is_nan", default=True))
@@ -164,7 +170,7 @@ def run(cfg, w):
     # a frame in which a numeric dimension is identified through its items only is ambiguous when values coincide
     # with those items (the property's own exception): such inputs are excluded there, and explored everywhere else
     ambiguous_layout = (h == "headerless" and _confusable(name)) or bool(L) and _confusable(name) and (L["header"] == "items" or (L["d2c"] is not None and any(isinstance(i, (int, float)) for i in spec[L["d2c"][1]][2])))
-    dims, X, x = _arr(w, name, no_confusion=ambiguous_layout, fortran=bool(cfg.get("fortran")), nan_entry=bool(cfg.get("nan_entry")))
+    dims, X, x = _arr(w, name, no_confusion=ambiguous_layout, fortran=bool(cfg.get("fortran")), nan_entry=bool(cfg.get("nan_entry")), inf_entries=bool(cfg.get("inf_entries")))
     if h == "to_df":
         d2c = None if cfg["d2c"] is None else spec[cfg["d2c"]][1]
         try:
